@@ -136,7 +136,9 @@ func TestVerifC03Receipts(t *testing.T) {
 				case "conflict":
 					var acked []*verifC03Cmd
 					for _, o := range cmds {
-						if o.cmd.acked {
+						// acknowledged commands and commands whose outcome is still
+						// ambiguous (lost responses, not yet resolved by an exact retry)
+						if o.cmd.acked || o.cmd.ambiguous {
 							acked = append(acked, o)
 						}
 					}
@@ -144,6 +146,9 @@ func TestVerifC03Receipts(t *testing.T) {
 						continue
 					}
 					o := acked[rapid.IntRange(0, len(acked)-1).Draw(rt, "conflictOf")]
+					if !o.cmd.acked {
+						s.flags["conflicting reuse of a command whose outcome was still ambiguous"] = true
+					}
 					p := o.cmd.proposal
 					p.Records = cloneRecords(p.Records)
 					idx := rapid.IntRange(0, len(p.Records)-1).Draw(rt, "conflictRecord")
